@@ -164,6 +164,9 @@ def run(ctx, ck) -> None:
         ck.expect('D4', not leaks, fn, f'{cls.name}.mv: the per-leaf function shares no mutable state between leaves',
                   f'{cls.name}.mv: {leaks[0] if leaks else ""}: the result for one leaf depends on the leaves processed before it (e.g. a cache keyed without the leaf rank returns the layout of another leaf)', instance=f'{cls.name} leaf independence')
 
+    # ------------------------------------------------------------------ D7 placement (axis-provenance interpretation)
+    _placement(ctx, ck, bcast, diag, dinv)
+
     # ------------------------------------------------------------------ D6 dense form (schema and shared-helper rule of C04.L2)
     from . import c04
 
@@ -183,6 +186,135 @@ def run(ctx, ck) -> None:
     t = _ret(d.node) if d is not None and isinstance(d.node, ast.FunctionDef) else None
     ck.expect('D5', t is not None and 'where' in show(t) and '/' in show(t), d.node if d else dinv.node, 'the inverse values are a guarded reciprocal of the stored values (exact form: C06.I2)',
               f'the inverse values are {show(t)}', instance='guarded reciprocal', nontrivial=False)
+
+
+PX = (3, 5, 7, 11, 13)
+PD = (17, 19, 23, 29)
+
+
+def _requested(ad, r: int, m: int):
+    """The specification: (normalised axes, L, R) for a legal request, 'dup' for colliding axes."""
+    if isinstance(ad, int):
+        ad = tuple(range(ad, ad + r)) if ad >= 0 else tuple(range(ad - r + 1, ad + 1))
+    axes = tuple(a if a >= 0 else m + a for a in ad)
+    if len(set(axes)) < len(axes):
+        return 'dup'
+    left = max(0, -min(axes))
+    right = max(0, max(axes) - m + 1)
+    return axes, left, right
+
+
+def _requests(r: int, m: int):
+    import itertools
+
+    yield from range(-m - 2, m + 2)
+    lo, hi = -m - 1, m + 1
+    for t in itertools.product(range(lo, hi), repeat=r):
+        if r == 3 and len(set(t)) < 3:
+            continue
+        yield t
+        if r == 2 and t[0] < t[1]:
+            yield list(t)
+
+
+def _placement(ctx, ck, bcast, diag, dinv) -> None:
+    """D7: for every order type of the requested axes (values of rank 1..3, leaves of rank 1..3, scalar and tuple requests,
+    negative axes, extension by one or two axes on either side) the abstract product computed by mv has exactly the
+    requested layout: input axis j at position L + j, values axis k at position L + axes[k], and nothing else."""
+    from ..axinterp import AxArr, Interp, Raised, Undecided, UNK, Flat, Cat, DiagOf
+
+    world, table = ctx.world, ctx.table
+    for cls in (bcast, diag, dinv):
+        strict = cls is not bcast
+        stats = {'requests': 0, 'legal': 0, 'rejected': 0, 'dup': 0, 'dense': 0}
+        wrong: list[str] = []
+        undecided: list[str] = []
+        strict_missed: list[str] = []
+        dup_missed: list[str] = []
+        dense_wrong: list[str] = []
+        mvres = table.resolve(cls, 'mv')
+        for m in (1, 2, 3):
+            for r in (1, 2, 3):
+                for ad in _requests(r, m):
+                    spec = _requested(ad, r, m)
+                    stats['requests'] += 1
+                    it = Interp(world, table, budget=20_000)
+                    leaf = AxArr(tuple((frozenset({f'x{j}'}), PX[j]) for j in range(m)))
+                    if spec == 'dup':
+                        sizes = [PD[k] for k in range(r)]
+                    else:
+                        sizes = [PX[a] if 0 <= a < m else PD[k] for k, a in enumerate(spec[0])]
+                    values = AxArr(tuple((frozenset({f'd{k}'}), sizes[k]) for k in range(r)))
+                    what = f'values rank {r}, axis_destination={ad!r}, leaf rank {m}'
+                    try:
+                        op = it.construct(diag if cls is dinv else cls, values, axis_destination=ad, in_structure=leaf)
+                        if cls is dinv:
+                            op = it.construct(dinv, op)
+                        res = it.call_method(op, 'mv', leaf)
+                    except Raised as e:
+                        if spec == 'dup':
+                            stats['dup'] += 1
+                        elif strict and (spec[1] or spec[2]):
+                            stats['rejected'] += 1
+                        else:
+                            wrong.append(f'{what}: a legal request raises {e.name}')
+                        continue
+                    except Undecided as e:
+                        undecided.append(f'{what}: {e}')
+                        continue
+                    if spec == 'dup':
+                        if not it.degraded and res is not UNK:
+                            dup_missed.append(what)
+                        continue
+                    axes, left, right = spec
+                    if strict and (left or right):
+                        if not it.degraded:
+                            strict_missed.append(what)
+                        continue
+                    if not isinstance(res, AxArr):
+                        undecided.append(f'{what}: the result of mv is not an array the interpreter can follow ({it.degraded[:1]})')
+                        continue
+                    total = left + m + right
+                    want = [set() for _ in range(total)]
+                    for j in range(m):
+                        want[left + j].add(f'x{j}')
+                    for k, a in enumerate(axes):
+                        want[left + a].add(f'd{k}')
+                    got = [set(l) for l in res.layout()]
+                    stats['legal'] += 1
+                    if got != want:
+                        wrong.append(f'{what}: the product has layout {res!r}, requested {AxArr(tuple((frozenset(w), 0) for w in want))!r}')
+                        continue
+                    # dense form of the strict variant: what is broadcast to the leaf shape and ravelled
+                    if strict:
+                        try:
+                            op.attrs.setdefault('_in_structure', leaf)
+                            dense = it.call_method(op, 'as_matrix')
+                        except (Raised, Undecided):
+                            continue
+                        parts = dense.of.parts if isinstance(dense, DiagOf) and isinstance(dense.of, Cat) else None
+                        if parts and len(parts) == 1 and isinstance(parts[0], Flat) and isinstance(parts[0].of, AxArr):
+                            stats['dense'] += 1
+                            got = [set(l) - {f'x{j}' for j in range(m)} for l in parts[0].of.layout()]
+                            wantd = [{x for x in w if x.startswith('d')} for w in want]
+                            if got != wantd or parts[0].of.shape != leaf.shape:
+                                dense_wrong.append(f'{what}: as_matrix ravels {parts[0].of!r}')
+        fn = mvres.node if mvres else cls.node
+        if undecided:
+            ck.incomplete('D7', fn, f'{cls.name}: the placement of the values could not be followed for {len(undecided)} of {stats["requests"]} requests, e.g. {undecided[0]}', instance=f'{cls.name} placement')
+        else:
+            ck.expect('D7', not wrong, fn,
+                      f'{cls.name}: for all {stats["legal"]} legal order types of the request (values rank 1-3, leaf rank 1-3, scalar / tuple / negative / extending axes) the product has input axis j at L+j and values axis k at L+axes[k]',
+                      f'{cls.name}: the values do not land on the requested axes for {len(wrong)} of {stats["requests"]} requests, e.g. {wrong[0] if wrong else ""}', instance=f'{cls.name} placement')
+        if strict:
+            ck.expect('D7', not strict_missed, fn, f'{cls.name}: all {stats["rejected"]} requests that would change the leaf shape raise',
+                      f'{cls.name}: a request that changes the leaf shape is accepted, e.g. {strict_missed[0] if strict_missed else ""}', instance=f'{cls.name} strict rejection')
+            ck.expect('D7', not dense_wrong, fn, f'{cls.name}: as_matrix lays the values out like mv ({stats["dense"]} requests followed)',
+                      f'{cls.name}: {dense_wrong[0] if dense_wrong else ""}', instance=f'{cls.name} dense placement', nontrivial=bool(stats['dense']))
+        ck.expect('D7', not dup_missed, fn, f'{cls.name}: all {stats["dup"]} requests with colliding axes raise',
+                  f'{cls.name}: colliding axes are accepted, e.g. {dup_missed[0] if dup_missed else ""}', instance=f'{cls.name} colliding axes')
+        ck.counts[f'D7:{cls.name} requests'] = stats['requests']
+    ck.floor('D7', sum(1 for o in ck.obs if o.rule.endswith('D7')), 9, 'placement obligations')
 
 
 def controls(world: World) -> list[Control]:
